@@ -154,6 +154,24 @@ PROPS["C15"] = A("TestSim_C15",
     assumptions=COMMON_ASSUME + ["an action that falls on the exact instant of the establishment timeout is judged leniently (timer and request are concurrent)",
         "media payloads are opaque strings; ICE server configuration is a fixed stub"])
 
+PROPS["C16"] = A("TestSim_C16",
+    "one evaluation = one simulated run of the 'files' workload: a small population attached to a group, then 4-16 strictly sequential actions drawn from: upload (multipart body with a file of 0-9000 bytes around the "
+    "4096-byte limit; content kinds PNG / HTML / PDF / plain text / binary with an allowed or a bogus client-supplied type / XML; methods POST, PUT, GET, DELETE, HEAD; API key in header, query, form field, cookie, "
+    "missing, forged; credentials as token or password in X-Tinode-Auth, Authorization, query (URL-safe base64), form field, cookies, as the id of a live session, missing, forged token, wrong password), download "
+    "(GET/HEAD/POST/DELETE with the same key and credential variants; ten URL shapes: as returned, with asatt=1, with dot-dot segments that clean to the same or to another path, absolute URL of another host, "
+    "suffix after the id, encoded slashes, unknown id, wrong directory, the server-side path of the stored file), publish with an attachment list, avatar update on 'me' with an attachment list, hard deletion of "
+    "all messages, deletion of the topic, and waits of 30 s to 2 h of simulated time during which the real collector loop ticks (period 60 s, grace one hour). A ledger of uploads (bytes, recorded type, owner, "
+    "completion time) is compared after every action with the simulated disk and with the real files of the fs media handler: a request with a wrong method, key, credentials or an oversize body must be refused "
+    "and leave store and upload directory byte-identical (oversize: 413); a valid one must succeed and record size, owner and the detected content type; a 200 download carries exactly the bytes and type of the "
+    "upload its URL names and is forced to 'attachment' for HTML, XML, text and application types; no odd URL shape is served; accepted attachment lists leave a link; nothing that is linked or younger than the "
+    "grace hour disappears, everything unlinked and older than grace + 80 s does, records and bytes disappear together, and at the end the upload directory holds exactly the recorded files. "
+    "Non-trivial = at least one accepted upload and one download judged; distinct = distinct (program hash, schedule hash).",
+    quick=(8, 120, 400), thorough=(16, 3000, 3000),
+    probes=["fault.clock_jump", "c16.collected", "c16.linked_pubatt", "c16.linked_avatar"],
+    assumptions=COMMON_ASSUME + ["file bytes live on the real file system under the run's scratch directory (the fs media handler is real code); disk errors, short writes and a full disk are not injected",
+        "the content type oracle uses inputs whose type is unambiguous (magic numbers, plain ASCII), not a re-implementation of the sniffing algorithm",
+        "CORS preflight (OPTIONS) handling and the S3 media handler are not exercised"])
+
 PROPS["C17"] = A("TestSim_C17",
     "one evaluation = one simulated run of the cluster simulator: 3-5 real Cluster objects (failoverInit, run loop, electLeader, sendHealthChecks, Health, Vote, rehash, isPartitioned, reconnect; peers listed in a different "
     "order on every node; heartbeat 50-200 ms with the real jitter, vote_after 2-8, node_fail_after 2-6) over a simulated inter-node network, driven through 1-8 network phases of 0.1-6 s each drawn from: fully connected, "
@@ -201,7 +219,6 @@ NOT_APPLICABLE = {
     "C05": "not claimed. The algebra clauses (canonical text form, parse/print round trip, delta laws over 256x256 pairs) are pure functions of their input: no schedule, clock or fault for a simulator to decide. "
            "The remaining clause (parties that replay change notifications converge to the authoritative permissions) is a simulation target, designed in DESIGN.md section 5 (C05), but its tracker clients / proxy topic were not built in the time available",
     "C10": "not claimed: a simulation target (presence convergence at quiescence, leak predicate), designed in DESIGN.md section 5 (C10); the workload and oracle were not built in the time available. The online-counter clause is checked white-box by the C14 check",
-    "C16": "not claimed: a simulation target (upload/download handlers, link/GC histories under a simulated clock), designed in DESIGN.md section 5 (C16); not built in the time available",
     "C19": "not claimed. Query parsing, tag rewriting and tag normalisation are pure functions of one input; the clauses about histories of tag updates and masked/reserved namespaces (DESIGN.md section 5, C19) were not built in the time available",
     "C20": "pure functions of one input (id codecs, name spellings, JSON<->protobuf converters): no schedule, clock, fault, crash point or second party for a simulator to decide; see DESIGN.md section 6",
 }
